@@ -9,9 +9,14 @@ dynamically typed).
 <fname> is a name of `D11b.table` (number / bool functions, `Stdlib/d11bFuncs.lean`; no environment)
 or of `D11b.collTable` (collection functions of `Stdlib.byName`, run under `modelEnv` like `std.callm`;
 no `refineUnmodelled` escape: `refineNonNull` is PROVED to accept every result of these functions).
-Answer: `ok <val>` | `err` | `panicerr` | `panic` | `unmodelled`.
+  d11b.glue <fname> (<arg>*) (<entry>*)
+
+<fname> of `D11b.glueTable` (string functions = `cty.StringVal ∘ library`); the entries are the recorded
+calls of the real library, as for `std.glue` (Driver/HStdNum.lean).
+Answer: `ok <val>` | `err` | `panicerr` | `panic` | `unmodelled` | `oracle-miss`.
 -/
 import Driver.HStdlib
+import Driver.HStdNum
 import CtyModel.Stdlib.d13Env
 import CtyModel.Stdlib.d11bFuncs
 open CtyModel CtyModel.Stdlib
@@ -30,4 +35,11 @@ def handleD11b : Handler := fun op args =>
         -- byte order of two hash strings, which `modelEnv` computes for strings inside its fragment
         if name == "reverse" && !modelEnvCovers as then pure "unmodelled"
         else pure (HStdlib.outStr (fun v => toString v.toSexp) (f.call modelEnv as))
+  | "d11b.glue", [.atom name, .list as, .list es] => do
+    let f ← D11b.glueByName name
+    let as ← as.mapM Value.ofSexp
+    let t ← es.mapM HStdNum.decEntry
+    let r1 := HStdlib.outStr (fun v => toString v.toSexp) ((f (HStdNum.libOf t false)).call {} as)
+    let r2 := HStdlib.outStr (fun v => toString v.toSexp) ((f (HStdNum.libOf t true)).call {} as)
+    pure (if r1 == r2 then r1 else "oracle-miss")
   | _, _ => none
